@@ -34,7 +34,7 @@ BaseCfg ==
    timetype |-> TRUE, durationtype |-> TRUE, durationcustom |-> "", customtypes |-> <<>>, suffixes |-> <<>>,
    channel |-> <<>>, alts |-> <<>>, fault |-> ""]
 
-Alt(name, clause, channel, perm, msgs) == [name |-> name, clause |-> clause, channel |-> channel, perm |-> perm, msgs |-> msgs, emptycli |-> FALSE, yamlstyle |-> ""]
+Alt(name, clause, channel, perm, msgs) == [name |-> name, clause |-> clause, channel |-> channel, perm |-> perm, msgs |-> msgs, emptycli |-> FALSE, yamlstyle |-> "", boolstyle |-> ""]
 
 \* A shape: one root type of one plugin run.  run names the (d, cfg) pair (shapes of the same run share the
 \* generated package); group / role / gchecks tie runs together for relational clauses evaluated by the
